@@ -185,6 +185,20 @@ class _ConstSub(ast.NodeTransformer):
         self.generic_visit(node)
         return node
 
+    def visit_BinOp(self, node):
+        # a key or a message assembled from substituted text constants is that text: "updating." + "in_progress"
+        self.generic_visit(node)
+        if isinstance(node.op, ast.Add) and isinstance(node.left, ast.Constant) and isinstance(node.right, ast.Constant) \
+                and type(node.left.value) is type(node.right.value) and isinstance(node.left.value, (str, bytes)):
+            return ast.copy_location(ast.Constant(value=node.left.value + node.right.value), node)
+        if isinstance(node.op, ast.Mod) and isinstance(node.left, ast.Constant) and isinstance(node.left.value, str) \
+                and isinstance(node.right, ast.Constant) and isinstance(node.right.value, (str, int)) and not isinstance(node.right.value, bool):
+            try:
+                return ast.copy_location(ast.Constant(value=node.left.value % node.right.value), node)
+            except (TypeError, ValueError):
+                return node
+        return node
+
 
 class _AttrCalls(ast.NodeTransformer):
     """N3: setattr(x, "name", v) -> x.name = v ; getattr(x, "name") -> x.name   (constant identifier names)"""
@@ -484,6 +498,50 @@ def _truncate_dead(stmts):
     return out
 
 
+def _jumps_to_returns(stmts, ret, probe=False):
+    """every own `<ret> = E; InlineJump` pair of the block -> `return E`; with probe=True only tells whether all own jumps have that shape
+    and <ret> is not read or written anywhere else in the block"""
+    ok = True
+    i = 0
+    while i < len(stmts):
+        st = stmts[i]
+        if isinstance(st, InlineJump):
+            if getattr(st, "ret", None) == ret:
+                return False if probe else ok     # a jump without its assignment right before it
+            i += 1
+            continue
+        nxt = stmts[i + 1] if i + 1 < len(stmts) else None
+        if isinstance(st, ast.Assign) and len(st.targets) == 1 and isinstance(st.targets[0], ast.Name) and st.targets[0].id == ret:
+            if isinstance(nxt, InlineJump) and getattr(nxt, "ret", None) == ret:
+                if not probe:
+                    r = ast.copy_location(ast.Return(value=st.value), st)
+                    stmts[i:i + 2] = [r]
+                    i += 1
+                else:
+                    i += 2
+                continue
+            return False if probe else ok
+        subs = []
+        if isinstance(st, InlineBlock):
+            subs = [st.prologue, st.body, st.epilogue]
+        else:
+            subs = [getattr(st, f) for f in ("body", "orelse", "finalbody") if isinstance(getattr(st, f, None), list)
+                    and not isinstance(st, (ast.FunctionDef, ast.AsyncFunctionDef, ast.ClassDef, ast.Lambda))]
+            subs += [h.body for h in getattr(st, "handlers", []) or []]
+        if subs:
+            for sub in subs:
+                if not _jumps_to_returns(sub, ret, probe):
+                    return False
+        elif probe and any(isinstance(x, ast.Name) and x.id == ret for x in ast.walk(st)):
+            return False
+        if probe and subs:
+            heads = [getattr(st, f, None) for f in ("test", "iter", "target")] + [getattr(w, "context_expr", None) for w in getattr(st, "items", []) or []]
+            if any(isinstance(x, ast.Name) and x.id == ret for h_ in heads if h_ is not None for x in ast.walk(h_)):
+                return False
+        i += 1
+    return True
+
+
 def _flatten_blocks(stmts):
     """An inlined helper whose only return is its last statement is a plain statement sequence: prologue; body; epilogue, and when the
     statement that received the result is `x = <result>` / `return <result>` the returned expression takes the place of the temporary."""
@@ -511,6 +569,13 @@ def _flatten_blocks(stmts):
                         ep[0].value = last.value
                         body = body[:-1]
                 out += st.prologue + body + ep
+                continue
+            # several returns, and the caller returns the result as it is (`return self._helper(x)`): each `<ret> = E; jump` is `return E`
+            ep = st.epilogue
+            if len(ep) == 1 and isinstance(ep[0], ast.Return) and isinstance(ep[0].value, ast.Name) and ep[0].value.id == st.ret \
+                    and _ends_flow(st.body) and _jumps_to_returns(st.body, st.ret, probe=True):
+                _jumps_to_returns(st.body, st.ret)
+                out += st.prologue + st.body
                 continue
             out.append(st)
             continue
@@ -665,6 +730,31 @@ def _sink_returns(stmts):
                     pre = [c]
                 stmts = stmts[:-1] + pre + [ret]
     return stmts
+
+
+def _merge_dict_stores(fdef):
+    """N26: `d = {k1: v1, ..}; d[K] = V` (K a new constant key, V not reading d, the store right after the display) -> `d = {k1: v1, .., K: V}`:
+    a reply built in two steps and one written as a single display get one form; the evaluation order is unchanged."""
+    def go(stmts):
+        i = 0
+        while i < len(stmts):
+            st = stmts[i]
+            for owner, f in _child_lists(st):
+                go(getattr(owner, f))
+            nxt = stmts[i + 1] if i + 1 < len(stmts) else None
+            if isinstance(st, ast.Assign) and len(st.targets) == 1 and isinstance(st.targets[0], ast.Name) and isinstance(st.value, ast.Dict) \
+                    and all(isinstance(k, ast.Constant) for k in st.value.keys) \
+                    and isinstance(nxt, ast.Assign) and len(nxt.targets) == 1 and isinstance(nxt.targets[0], ast.Subscript) \
+                    and isinstance(nxt.targets[0].value, ast.Name) and nxt.targets[0].value.id == st.targets[0].id \
+                    and isinstance(nxt.targets[0].slice, ast.Constant) \
+                    and nxt.targets[0].slice.value not in [k.value for k in st.value.keys] \
+                    and not any(isinstance(x, ast.Name) and x.id == st.targets[0].id for x in ast.walk(nxt.value)):
+                st.value.keys.append(nxt.targets[0].slice)
+                st.value.values.append(nxt.value)
+                del stmts[i + 1]
+                continue
+            i += 1
+    go(fdef.body)
 
 
 def _is_boolish(e):
@@ -824,6 +914,7 @@ class _ReturnRewriter(ast.NodeTransformer):
         a = ast.copy_location(ast.Assign(targets=[ast.Name(id=self.ret, ctx=ast.Store())], value=val, type_comment=None), node)
         ast.fix_missing_locations(a)
         j = ast.copy_location(InlineJump(), node)
+        j.ret = self.ret
         return [a, j]
 
 
@@ -1016,6 +1107,8 @@ class Normalizer:
         fdef.body = _sink_returns(fdef.body)
         state = {"locals": _local_names(fdef), "caller": stack[0], "displays": _single_displays(fdef), "module": modname, "root": fdef}
         self._closures = {}
+        self._comp_displays(fdef, modname, cname, state)
+        _merge_dict_stores(fdef)
         fdef.body = _drop_dead_defs(fdef, _flatten_blocks(self._stmts(fdef.body, modname, cname, stack, state)))
 
     def _stmts(self, stmts, modname, cname, stack, state):
@@ -1745,6 +1838,52 @@ class Normalizer:
         if q in self.known_c or not isinstance(src, (ast.List, ast.Tuple)):
             return None
         return src
+
+    def _comp_displays(self, fdef, modname, cname, state):
+        """N25: a comprehension over a constant display of constants is the display it builds:
+        `{f: s[f] for f in ("a", "b")}` -> `{"a": s["a"], "b": s["b"]}` (one generator, no condition; the element expressions are evaluated in
+        the same order either way)."""
+        me = self
+
+        class T(ast.NodeTransformer):
+            def visit_FunctionDef(s_, node):
+                if node is fdef:
+                    s_.generic_visit(node)
+                return node
+            visit_AsyncFunctionDef = visit_FunctionDef
+
+            def visit_Lambda(s_, node):
+                return node
+
+            def _comp(s_, node):
+                s_.generic_visit(node)
+                if len(node.generators) != 1:
+                    return node
+                g = node.generators[0]
+                if g.ifs or g.is_async:
+                    return node
+                disp = me._const_display(g.iter, modname, cname, state.get("displays"))
+                if disp is None or not (1 <= len(disp.elts) <= MAX_UNROLL) or any(isinstance(e, ast.Starred) for e in disp.elts):
+                    return node
+                binds = [_const_binding(g.target, e) for e in disp.elts]
+                if any(b is None for b in binds):
+                    return node
+                if isinstance(node, ast.DictComp):
+                    ks = [_ConstSub(b).visit(copy.deepcopy(node.key)) for b in binds]
+                    vs = [_ConstSub(b).visit(copy.deepcopy(node.value)) for b in binds]
+                    # a repeated key would make the display differ from the comprehension only in evaluation count, not in result; keep it simple
+                    if len({ast.dump(k) for k in ks}) != len(ks):
+                        return node
+                    new = ast.Dict(keys=ks, values=vs)
+                else:
+                    es = [_ConstSub(b).visit(copy.deepcopy(node.elt)) for b in binds]
+                    new = ast.Set(elts=es) if isinstance(node, ast.SetComp) else ast.List(elts=es, ctx=ast.Load())
+                ast.copy_location(new, node)
+                ast.fix_missing_locations(new)
+                me.lowered.append((state["caller"], getattr(node, "lineno", 0), "comprehension-display"))
+                return new
+            visit_DictComp = visit_ListComp = visit_SetComp = _comp
+        T().visit(fdef)
 
     def _unroll(self, st, modname, cname, state):
         if isinstance(st, ast.AsyncFor) or st.orelse:
